@@ -627,7 +627,7 @@ def gl10(prog):
 
 
 
-def _returned_after(fn, te, t, bb):
+def _returned_after(fn, te, t, bb, split=True):
     """the alternatives of the return term t that can be returned on a path through block bb: joins keep the
     alternatives whose source block is reachable from bb; choices are resolved by the facts known at bb"""
     t = strip(t)
@@ -635,10 +635,15 @@ def _returned_after(fn, te, t, bb):
         return [t]
     if t[0] == "phi":
         out = []
+        kept = 0
         for pb, v in t[2]:
             pbn = int(str(pb).replace("bb", "")) if not isinstance(pb, int) else pb
-            if pbn == bb or fn.cfg.can_reach(bb, pbn):
-                out += _returned_after(fn, te, v, bb)
+            # the alternative's source block lies on a path through bb: after it, or (a value computed earlier) before it
+            if pbn == bb or fn.cfg.can_reach(bb, pbn) or fn.cfg.can_reach(pbn, bb):
+                kept += 1
+                out += _returned_after(fn, te, v, bb, split)
+        if not split and kept == len(t[2]) and kept > 1:
+            return [t]
         return out
     if t[0] == "gamma":
         known = {repr(strip(c)): v for c, v, _, _ in te.facts_at(bb)}
@@ -648,12 +653,13 @@ def _returned_after(fn, te, t, bb):
             picked = [v for lab, v in arms if lab == kv or (isinstance(lab, tuple) and lab[0] == "not" and isinstance(kv, str) and kv not in lab[1])
                       or (isinstance(kv, tuple) and kv[0] == "not" and isinstance(lab, str) and lab not in kv[1] and len(arms) == 2)]
             if len(picked) == 1:
-                return _returned_after(fn, te, picked[0], bb)
-        # the choice is made after bb (its test is not a fact at bb) or cannot be resolved: every arm whose test
-        # block lies after bb, else all
+                return _returned_after(fn, te, picked[0], bb, split)
+        # the choice is not decided by what is known at bb: every arm (or, unsplit, the choice as a whole)
+        if not split:
+            return [t]
         out = []
         for lab, v in arms:
-            out += _returned_after(fn, te, v, bb)
+            out += _returned_after(fn, te, v, bb, split)
         return out
     return [t]
 
